@@ -89,4 +89,19 @@ func init() {
 		Bounds:  map[string]string{"quick": "all configuration strings symbolic; 0..2 requested authentication contexts; flags on/off; the real etree construction code is executed", "thorough": "same"},
 		Outside: []string{"escaping on serialisation and re-parsing (etree WriteTo / encoding/xml): the tree is inspected in memory", "signed variants: C13"},
 	})
+	sso := []HarnessSpec{
+		{Name: "VH_C01_sso", Replay: "native", Unwind: 400, QuickOnly: true},
+		{Name: "VH_C01_sso_deep", Replay: "native", Unwind: 400, Thorough: true},
+	}
+	ssoBounds := map[string]string{
+		"quick":    "Response root with signature none/valid/invalid; 0..2 children each one of {assertion (sig none/valid/invalid), EncryptedAssertion of such an assertion, EncryptedAssertion of a non-assertion / unparsable plaintext, wrapper element hiding a genuine signed assertion (plain or encrypted), assertion with a genuine signed assertion nested inside, unrelated element}; raw or DEFLATE presentation; every leaf string symbolic; rtvalidator and certificate-trust outcomes nondeterministic",
+		"thorough": "same with 0..3 children",
+	}
+	ssoOutside := []string{"the XML-level part of wrapping / ID-collision / comment / namespace / encoding attacks lives in goxmldsig, etree, encoding/xml and xml-roundtrip-validator and is represented only by the dsig.Validate contract (DESIGN section 2)", "RSA/ECDSA verification and canonicalisation themselves"}
+	for _, id := range []string{"C01", "C02", "C04", "C07"} {
+		reg(&PropSpec{ID: id, Harnesses: sso, Bounds: ssoBounds, Outside: ssoOutside})
+	}
+	for _, id := range []string{"C03", "C09", "C11"} {
+		props[id].Harnesses = append(props[id].Harnesses, sso...)
+	}
 }
